@@ -476,7 +476,7 @@ fn judge(forest: &[P], w: &mut WorkerCtx)
 					if !expect_reject
 					{
 						ok = false;
-						w.result.violation(&format!("rejected-well-placed-body:E{}", codes[0]), size, &desc, || format!("the model finds every loop and branch well placed, the compiler reports {codes:?}\n{text}"));
+						w.result.violation(&format!("rejected-well-placed-body:E{}", codes.first().copied().unwrap_or(0)), size, &desc, || format!("the model finds every loop and branch well placed, the compiler reports {codes:?}\n{text}"));
 					}
 					else
 					{
